@@ -795,7 +795,9 @@ func main() {
 	} {
 		if !have[d.name] {
 			facts = append(facts, d)
-			if d.name == "curtailSlack" {
+			if d.name == "curtailSlack" || d.name == "wsBytes" || d.name == "wsBreakBytes" {
+				// (the whitespace byte sets: SkipWhitespaces as a whole is translated - FactsProg.Reader_SkipWhitespaces - and
+				// Props/C10P.lean proves the model's skipWhitespaces over these sets equal to the translation)
 				// the curtailment test is ALSO translated as an expression (FactsFn.curtails) and inside Memoize_parse
 				// (FactsCore): Proofs/FactsTie.lean and Props/C01P.lean prove the model's test over this constant equal to
 				// the translation, so a rewritten but equivalent test needs no alarm and a changed one breaks those proofs
